@@ -153,11 +153,12 @@ func main() {
 		}
 		info := &types.Info{Types: map[ast.Expr]types.TypeAndValue{}, Uses: map[*ast.Ident]types.Object{}, Defs: map[*ast.Ident]types.Object{}}
 		conf := types.Config{Importer: imp, Error: func(err error) {}}
-		if _, err := conf.Check(lp.ImportPath, fset, files, info); err != nil {
+		tpkg, err := conf.Check(lp.ImportPath, fset, files, info)
+		if err != nil {
 			fatal("type check of %s failed: %v", t, err)
 		}
 		for i, af := range files {
-			r := &rewriter{fset: fset, info: info, pkg: t, file: lp.GoFiles[i]}
+			r := &rewriter{fset: fset, info: info, pkg: t, file: lp.GoFiles[i], af: af, tpkg: tpkg}
 			r.rewriteFile(af)
 			if len(r.errs) > 0 {
 				for _, e := range r.errs {
@@ -259,6 +260,8 @@ type rewriter struct {
 	errs  []string
 	notes []string
 	used  bool
+	af    *ast.File
+	tpkg  *types.Package
 }
 
 func (r *rewriter) errorf(n ast.Node, format string, a ...interface{}) {
@@ -433,6 +436,22 @@ func (r *rewriter) scanExpr(e ast.Node, forbidRecv bool) (recvs []*ast.UnaryExpr
 				recvs = append(recvs, n)
 			}
 		case *ast.CallExpr:
+			if r.isBuiltin(n.Fun, "make") && len(n.Args) >= 1 {
+				if _, isChan := r.typeOf(n).(*types.Chan); isChan {
+					// make(T, n)  =>  func() T { c := make(T, n); vrt.RegChan(c); return c }()
+					// (the channel gets a creation rank: map iteration over channel keys is ordered by it)
+					r.used = true
+					c := ast.NewIdent("vrtNewC")
+					inner := &ast.CallExpr{Fun: ast.NewIdent("make"), Args: n.Args}
+					typ := r.clone(n.Args[0]).(ast.Expr)
+					n.Fun = &ast.FuncLit{
+						Type: &ast.FuncType{Params: &ast.FieldList{}, Results: &ast.FieldList{List: []*ast.Field{{Type: typ}}}},
+						Body: &ast.BlockStmt{List: []ast.Stmt{define(c, inner), exprStmt(vrtCall("RegChan", c)), &ast.ReturnStmt{Results: []ast.Expr{c}}}},
+					}
+					n.Args = nil
+					return false
+				}
+			}
 			if id, ok := n.Fun.(*ast.Ident); ok && (id.Name == "len" || id.Name == "cap") && len(n.Args) == 1 {
 				if _, isChan := r.typeOf(n.Args[0]).(*types.Chan); isChan {
 					r.errorf(n, "len/cap of a channel")
@@ -493,6 +512,11 @@ func (r *rewriter) stmt(st ast.Stmt) []ast.Stmt {
 		if _, ok := r.typeOf(s.X).(*types.Chan); ok {
 			return []ast.Stmt{r.rangeChan(s, nil)}
 		}
+		if mt, ok := r.typeOf(s.X).(*types.Map); ok {
+			if st := r.rangeMap(s, mt, nil); st != nil {
+				return []ast.Stmt{st}
+			}
+		}
 		r.scanExpr(s.X, true)
 		r.body(s.Body)
 	case *ast.SwitchStmt:
@@ -532,6 +556,14 @@ func (r *rewriter) stmt(st ast.Stmt) []ast.Stmt {
 		if rs, ok := s.Stmt.(*ast.RangeStmt); ok {
 			if _, isChan := r.typeOf(rs.X).(*types.Chan); isChan {
 				return []ast.Stmt{r.rangeChan(rs, s.Label)}
+			}
+			if mt, isMap := r.typeOf(rs.X).(*types.Map); isMap {
+				if st := r.rangeMap(rs, mt, s); st != nil {
+					return []ast.Stmt{st}
+				}
+				r.scanExpr(rs.X, true)
+				r.body(rs.Body)
+				return []ast.Stmt{s}
 			}
 		}
 		if _, ok := s.Stmt.(*ast.SelectStmt); ok {
@@ -745,6 +777,92 @@ func (r *rewriter) goStmt(s *ast.GoStmt) ast.Stmt {
 	fl := &ast.FuncLit{Type: &ast.FuncType{Params: &ast.FieldList{}}, Body: &ast.BlockStmt{List: []ast.Stmt{exprStmt(inner)}}}
 	list = append(list, exprStmt(vrtCall("Go", fl)))
 	return &ast.BlockStmt{List: list}
+}
+
+// rangeMap owns the iteration order of a map: under the scheduler (and outside race builds) the loop
+// runs over vrt.MapKeys(m) - canonical order, or every order when the scenario asks for it; the
+// original loop is kept for pass-through and race builds.  Returns nil when the loop is left alone.
+func (r *rewriter) rangeMap(s *ast.RangeStmt, mt *types.Map, labeled *ast.LabeledStmt) ast.Stmt {
+	if s.Tok != token.DEFINE {
+		r.notes = append(r.notes, "map range left alone (assignment form) in "+r.pkg)
+		return nil
+	}
+	switch k := mt.Key().Underlying().(type) {
+	case *types.Basic:
+		if k.Info()&(types.IsString|types.IsInteger) == 0 {
+			return nil
+		}
+	case *types.Chan:
+	default:
+		r.notes = append(r.notes, "map range left alone (key type "+mt.Key().String()+") in "+r.pkg)
+		return nil
+	}
+	// the key type, written with the file's own import names
+	missing := false
+	q := func(p *types.Package) string {
+		if p.Path() == r.tpkg.Path() {
+			return ""
+		}
+		for _, im := range r.af.Imports {
+			ip, _ := strconv.Unquote(im.Path.Value)
+			for orig, shim := range importMap {
+				if ip == shim {
+					ip = orig
+				}
+			}
+			if ip == p.Path() {
+				if im.Name != nil {
+					return im.Name.Name
+				}
+				return p.Name()
+			}
+		}
+		missing = true
+		return p.Name()
+	}
+	kt, err := parser.ParseExpr(types.TypeString(mt.Key(), q))
+	if err != nil || missing {
+		r.notes = append(r.notes, "map range left alone (key type not expressible) in "+r.pkg)
+		return nil
+	}
+	r.used = true
+	r.scanExpr(s.X, true)
+	// the copy keeps the original loop; a label on the loop is cloned with it (clone renames the label
+	// and the branches that name it), the ordered loop keeps the original label
+	var origStmt ast.Stmt
+	var orig *ast.RangeStmt
+	if labeled != nil {
+		lc := r.clone(labeled).(*ast.LabeledStmt)
+		orig, origStmt = lc.Stmt.(*ast.RangeStmt), lc
+	} else {
+		orig = r.clone(s).(*ast.RangeStmt)
+		origStmt = orig
+	}
+	r.body(orig.Body)
+	r.body(s.Body)
+	m, ki, ok := r.tmp("M"), r.tmp("K"), r.tmp("Ok")
+	key := s.Key
+	if id, isId := key.(*ast.Ident); key == nil || (isId && id.Name == "_") {
+		key = r.tmp("Key")
+	}
+	var val ast.Expr = ast.NewIdent("_")
+	if s.Value != nil {
+		val = s.Value
+	}
+	body := []ast.Stmt{
+		&ast.AssignStmt{Lhs: []ast.Expr{key}, Tok: token.DEFINE, Rhs: []ast.Expr{&ast.TypeAssertExpr{X: ki, Type: kt}}},
+		&ast.AssignStmt{Lhs: []ast.Expr{val, ok}, Tok: token.DEFINE, Rhs: []ast.Expr{&ast.IndexExpr{X: m, Index: key}}},
+		&ast.IfStmt{Cond: &ast.UnaryExpr{Op: token.NOT, X: ok}, Body: &ast.BlockStmt{List: []ast.Stmt{&ast.BranchStmt{Tok: token.CONTINUE}}}},
+		&ast.AssignStmt{Lhs: []ast.Expr{ast.NewIdent("_")}, Tok: token.ASSIGN, Rhs: []ast.Expr{key}},
+	}
+	body = append(body, s.Body.List...)
+	var loop ast.Stmt = &ast.RangeStmt{Key: ast.NewIdent("_"), Value: ki, Tok: token.DEFINE, X: vrtCall("MapKeys", m), Body: &ast.BlockStmt{List: body}}
+	if labeled != nil {
+		loop = &ast.LabeledStmt{Label: labeled.Label, Stmt: loop}
+	}
+	ordered := &ast.BlockStmt{List: []ast.Stmt{define(m, s.X), loop}}
+	r.notes = append(r.notes, "ordered map range over "+types.ExprString(orig.X)+" in "+r.pkg)
+	return &ast.IfStmt{Cond: vrtCall("OrderedMaps"), Body: ordered, Else: &ast.BlockStmt{List: []ast.Stmt{origStmt}}}
 }
 
 func (r *rewriter) rangeChan(s *ast.RangeStmt, label *ast.Ident) ast.Stmt {
